@@ -34,7 +34,8 @@ def main():
     for name in names:
         d = os.path.join(SEEDED, name)
         meta = json.load(open(os.path.join(d, "meta.json")))
-        checks = checks_override or ([meta["property"]] if primary_only else list(meta.get("checks_quick", {meta["property"]: 0}).keys()))
+        known = list(meta.get("checks_quick", {}).keys()) or list(meta.get("candidate_checks", [])) or [meta["property"]]
+        checks = checks_override or ([meta["property"]] if primary_only else known)
         st = sh(["git", "-C", "/repo", "status", "--porcelain"])
         assert st.stdout.strip() == "", "/repo not clean: " + st.stdout
         a = sh(["git", "-C", "/repo", "apply", os.path.join(d, "patch.diff")])
